@@ -74,9 +74,27 @@ class Site:
         self.macro = macro
         self.noise = noise
 
+    def producer(self):
+        """For unwrap / expect: the call that produced the unwrapped value (last two path segments)."""
+        if self.kind not in ("option-unwrap", "result-unwrap"):
+            return None
+        t = self.fn.term(self.bb)
+        c = CallSite(self.fn, self.bb, t)
+        p = op_place(c.args[0]) if c.args else None
+        d = self.fn.call_defining(p["l"]) if p is not None else None
+        if d is None:
+            return "?"
+        n = norm(d.name)
+        n = re.sub(r"^<(.*) as (.*)>::", lambda m: m.group(1).split("::")[-1] + "::", n)
+        return "::".join(n.split("::")[-2:])
+
     def key(self):
         m = (self.msg or "")[:48]
-        return "%s|%s|%s%s" % (self.fn.nkey, self.kind, norm(self.callee).split("::")[-1] if self.callee else "", ("|" + m) if m else "")
+        k = "%s|%s|%s%s" % (self.fn.nkey, self.kind, norm(self.callee).split("::")[-1] if self.callee else "", ("|" + m) if m else "")
+        pr = self.producer()
+        if pr is not None:
+            k += "|<=" + pr
+        return k
 
     def where(self):
         return self.fn.where(self.bb)
